@@ -171,6 +171,9 @@ structure VarSpec (cfg : Cfg R T) (i : Nat) (stf : List (Outcome R) → Option (
   done : ∀ st, v.res = .ok st → stf used = some st ∧ guard cfg.repMax (cfg.keep i) st = false ∧
     ∃ pre, v.trace = pre ++ saveEvs cfg i st
   failed : ∀ e, v.res = .error e → e = .Exhausted ∧ v.rest = []
+  /-- a variation that did not finish ran out of outcomes while it still had to go on -/
+  stuck : ∀ e, v.res = .error e →
+    stf used = none ∨ ∃ st, stf used = some st ∧ guard cfg.repMax (cfg.keep i) st = true
 
 /-- `finishVar` after a loop started in `s0`, with only calls before it -/
 theorem finishVar_spec (cfg : Cfg R T) (i : Nat) (pre : List (Ev R T)) (s0 : VarState R) (c : Clock)
@@ -185,7 +188,7 @@ theorem finishVar_spec (cfg : Cfg R T) (i : Nat) (pre : List (Ev R T)) (s0 : Var
   by_cases hex : (loopC cfg i s0 c os).exhausted = true
   · simp only [hex, if_true]
     obtain ⟨hr, _⟩ := h5 hex
-    refine ⟨⟨by simpa [hr] using h1, ?_, hpre1.append h7, fun hm => hpre2.append (h8 hm), ?_, ?_, ?_⟩, ?_⟩
+    refine ⟨⟨by simpa [hr] using h1, ?_, hpre1.append h7, fun hm => hpre2.append (h8 hm), ?_, ?_, ?_, ?_⟩, ?_⟩
     · intro x hx
       rw [partOps_append, hpre3, List.nil_append] at hx
       obtain ⟨p, hp, _, hx'⟩ := h6 x hx
@@ -197,11 +200,14 @@ theorem finishVar_spec (cfg : Cfg R T) (i : Nat) (pre : List (Ev R T)) (s0 : Var
     · intro e he
       simp only [Except.error.injEq] at he
       exact ⟨he.symm, rfl⟩
+    · intro e _
+      right; exact ⟨_, rfl, by rw [← h2]; exact (h5 hex).2⟩
     · rw [callLog_append, hpre4, h9, List.replicate_append_replicate]
   · have hex' : (loopC cfg i s0 c os).exhausted = false := by simpa using hex
     simp only [hex', Bool.false_eq_true, if_false]
     refine ⟨⟨h1, ?_, hpre1.append (h7.append (onlyVar_saveEvs cfg i _)),
-      fun hm => hpre2.append ((h8 hm).append (allAtomic_saveEvs cfg i _ hm)), ?_, ?_, ?_⟩, ?_⟩
+      fun hm => hpre2.append ((h8 hm).append (allAtomic_saveEvs cfg i _ hm)), ?_, ?_, ?_,
+      fun e he => by simp at he⟩, ?_⟩
     · intro x hx
       rw [partOps_append, hpre3, List.nil_append, partOps_append, contents_append, List.mem_append,
         partOps_saveEvs, contents_saveOps] at hx
@@ -251,7 +257,8 @@ theorem firstRunC_spec (cfg : Cfg R T) (i : Nat) :
       ∃ used, VarSpec cfg i (stK cfg.merge k) outs (firstRunC cfg i k c outs) used ∧
         callLog (firstRunC cfg i k c outs).trace = List.replicate (k + used.length) i
   | [], k, c => by
-    refine ⟨[], ⟨rfl, ?_, OnlyVar.replicate_call i k, fun _ => AllAtomic.replicate_call i k, ?_, ?_, ?_⟩, ?_⟩
+    refine ⟨[], ⟨rfl, ?_, OnlyVar.replicate_call i k, fun _ => AllAtomic.replicate_call i k, ?_, ?_, ?_,
+      fun _ _ => Or.inl (stK_nil _ _)⟩, ?_⟩
     · intro x hx; simp [firstRunC, partOps_replicate_call, contents] at hx
     · intro p hp hne; exact absurd (List.prefix_nil.mp hp) hne
     · intro st hst; simp [firstRunC] at hst
@@ -263,7 +270,8 @@ theorem firstRunC_spec (cfg : Cfg R T) (i : Nat) :
     obtain ⟨used, hs, hc⟩ := firstRunC_spec cfg i os (k + 1) c.tick
     refine ⟨.skip :: used, ?_, ?_⟩
     · rw [firstRunC]
-      refine ⟨by rw [List.cons_append, ← hs.split], ?_, hs.only, hs.atomic, ?_, ?_, hs.failed⟩
+      refine ⟨by rw [List.cons_append, ← hs.split], ?_, hs.only, hs.atomic, ?_, ?_, hs.failed,
+        fun e he => by rw [stK_skip]; exact hs.stuck e he⟩
       · intro x hx
         obtain ⟨p, s, hp, hst, hx'⟩ := hs.saved x hx
         exact ⟨.skip :: p, s, List.cons_prefix_cons.mpr ⟨rfl, hp⟩, by rw [stK_skip]; exact hst, hx'⟩
@@ -284,7 +292,8 @@ theorem firstRunC_spec (cfg : Cfg R T) (i : Nat) :
       (k + 1) (callLog_replicate_call i _)
     refine ⟨.ok r :: used, ?_, ?_⟩
     · rw [firstRunC]
-      refine ⟨by rw [List.cons_append, ← hs.split], ?_, hs.only, hs.atomic, ?_, ?_, hs.failed⟩
+      refine ⟨by rw [List.cons_append, ← hs.split], ?_, hs.only, hs.atomic, ?_, ?_, hs.failed,
+        fun e he => by rw [stK_ok]; exact hs.stuck e he⟩
       · intro x hx
         obtain ⟨p, s, hp, hst, hx'⟩ := hs.saved x hx
         exact ⟨.ok r :: p, s, List.cons_prefix_cons.mpr ⟨rfl, hp⟩, by rw [stK_ok]; exact hst, hx'⟩
